@@ -361,6 +361,22 @@ def exec_params():
     return out
 
 
+def fork_close():
+    """ForkProcessRunner.close removes the runner's own entry of _RUNNER_FORK_MEMORY (and nothing else)."""
+    fn = _find(_src('runners/process.py'), 'ForkProcessRunner', 'close')
+    if fn is None:
+        return 'CloseUnknown'
+    src = ast.unparse(fn)
+    touching = [n for n in ast.walk(fn) if isinstance(n, (ast.Delete, ast.Expr, ast.Assign)) and '_RUNNER_FORK_MEMORY' in ast.unparse(n)]
+    if len(touching) == 1:
+        t = ast.unparse(touching[0])
+        if t in ('del _RUNNER_FORK_MEMORY[self.uuid]', '_RUNNER_FORK_MEMORY.pop(self.uuid, None)', '_RUNNER_FORK_MEMORY.pop(self.uuid)'):
+            return 'CloseOwn'
+        if t in ('_RUNNER_FORK_MEMORY.clear()', '_RUNNER_FORK_MEMORY = {}'):
+            return 'CloseAll'
+    return 'CloseUnknown'
+
+
 def ctx_binding():
     """TaskCoordinator.run builds the runner from self.lab.context, read when the call is made."""
     run = _find(_src('lab.py'), 'TaskCoordinator', 'run')
@@ -576,6 +592,8 @@ def with_probes():
     for k in ('serial', 'fork', 'spawn'):
         _settle(xp, k, 'false', probed)
     xp['binding'] = ctx_binding()
+    xp['close'] = fork_close()
+    _settle(xp, 'close', 'CloseUnknown', probed)
     _settle(xp, 'binding', 'CtxBindUnknown', probed)
     cp = cache_params()
     _settle(cp, 'order', 'UnknownOrder', probed)
@@ -608,7 +626,8 @@ def render():
               'Definition consume_after_results_src : bool := %(ca)s.' % lp,
               'Definition log_queue_src : log_queue_kind := %(lq)s.' % lp]
     lines += ['Definition ctx_sites_src : ctx_sites := {| cf_serial := %(serial)s; cf_fork := %(fork)s; cf_spawn := %(spawn)s |}.' % xp,
-              'Definition ctx_binding_src : ctx_binding := %(binding)s.' % xp]
+              'Definition ctx_binding_src : ctx_binding := %(binding)s.' % xp,
+              'Definition fork_close_src : close_mode := %(close)s.' % xp]
     lines += ['Definition start_policy_src : start_policy := %(start)s.' % ep,
               'Definition proc_ctor_src : proc_ctor := %(ctor)s.' % ep,
               'Definition wait_policy_src : wait_policy := %(wait)s.' % ep,
